@@ -15,6 +15,7 @@ import Calc.Proofs.Lawful
 import Calc.Spec.BuiltinSpec
 import Calc.Model.Builtins
 import Calc.Generated.InitEnv
+import Calc.Proofs.Euclid
 namespace Calc.Props.C08
 open Calc Calc.Gen
 
@@ -174,6 +175,18 @@ theorem C08_bodies (z w : S) (m : Mat S) (l c : Nat) :
       | some inv => .ok (.matrix inv)
       | none => .diag ⟨.noInverseForMatrix, l, c, []⟩) := by
   refine ⟨?_, ?_, ?_, ?_, ?_, ?_, ?_, ?_, ?_, ?_, ?_, ?_, ?_, ?_, ?_, ?_, ?_, ?_, ?_, ?_, ?_, ?_, ?_, ?_, ?_, ?_, ?_, ?_, ?_, ?_⟩ <;> simp [nativeBody, num1, numArg, matArg, Res.bind] <;> cases Mat.inverse m <;> rfl
+
+/-- **C08 (gcd / lcm routine).** Euclid's loop of `_gcd` (on the absolute values of two
+    integer-valued arguments, where the float remainder is exact) returns the greatest common
+    divisor, which divides both; `_lcm` is the least common multiple; and gcd · lcm = |a · b|.
+    (The tie between this loop on ℕ and the float loop of the Rust is the exactness of `fmod` on
+    integer-valued doubles — trusted — and the `builtins` stream.) -/
+theorem C08_gcd_lcm (a b : Nat) :
+    Euclid.loop (b + 1) a b = Nat.gcd a b ∧
+    (Euclid.loop (b + 1) a b ∣ a ∧ Euclid.loop (b + 1) a b ∣ b) ∧
+    Euclid.lcm a b = Nat.lcm a b ∧
+    Euclid.loop (b + 1) a b * Euclid.lcm a b = a * b :=
+  ⟨Euclid.gcd_correct a b, Euclid.gcd_dvd a b, Euclid.lcm_correct a b, Euclid.gcd_mul_lcm a b⟩
 
 -- the hypotheses of the refusal theorems are satisfiable on the shipped table
 example : Gen.builtins.find? (fun b => b.name.toList = "log".toList) =
